@@ -113,13 +113,15 @@ impl Interpreter {
                 state.stack.push_bytes(a);
             }
             OpCodes::OP_IFDUP => {
-                let predicate = state.stack.pop_bool()?;
-                if predicate {
-                    let top_data = match state.stack.last().cloned() {
-                        Some(v) => v,
-                        None => return Err(InterpreterError::EmptyStack),
-                    };
+                let top_data = match state.stack.last().cloned() {
+                    Some(v) => v,
+                    None => return Err(InterpreterError::EmptyStack),
+                };
 
+                // The top item is only inspected, not consumed
+                let predicate = state.stack.pop_bool()?;
+                state.stack.push(top_data.clone());
+                if predicate {
                     state.stack.push(top_data);
                 }
             }
